@@ -63,13 +63,15 @@ func Materialise(t *Tree, root string) error {
 			continue
 		}
 		p := filepath.Join(root, filepath.FromSlash(n.Path))
+		if err := unix.Lchown(p, int(n.Uid), int(n.Gid)); err != nil {
+			return fmt.Errorf("lchown %s: %w", n.Path, err)
+		}
+		// xattrs after the owner (chown drops security.capability) and before the final
+		// mode (a read-only mode does not matter for root)
 		for k, v := range n.Xattrs {
 			if err := unix.Lsetxattr(p, k, v, 0); err != nil {
 				return fmt.Errorf("lsetxattr %s %s: %w", n.Path, k, err)
 			}
-		}
-		if err := unix.Lchown(p, int(n.Uid), int(n.Gid)); err != nil {
-			return fmt.Errorf("lchown %s: %w", n.Path, err)
 		}
 		if n.Kind != KSymlink {
 			if err := unix.Chmod(p, n.Perm&0o7777); err != nil {
